@@ -43,6 +43,24 @@
                                holds the source's drain lock with the timer out of the heap.  A disarmed timer carries
                                count << 1 | MARKER exactly when it has an undelivered fire (pd = 3): keeping it would deliver
                                a count of the replaced configuration (OnlyNewConfig / NeverEarly / CountBound of Timer.tla)
+   OWNERSHIP (Timer.tla: HeapMutatedOnlyByOwner, KernelTimerProgrammedOnlyByOwner, OffManagerMayConfigure, ProgrammedCoversHeap).
+   Every record carries th, a small index of the thread that executed the probe / the hooked atomic.  The manager is the
+   thread that produced the records only the manager's loop can produce (epoll_wait: `wait`, timerfd expiry: `kevent`); the
+   driver names it in the `threads` record that opens each execution (mgr; nw = number of distinct threads seen there, must
+   be 1).  Laws:
+       HeapMutatedOnlyByOwner             arm (heap insert / re-sift) and disarm (heap remove) records come from the manager
+       KernelTimerProgrammedOnlyByOwner   run / fire / prog / kprog records come from the manager
+       OffManagerMayConfigure             cfgtake = _dispatch_timer_unote_configure takes the pending configuration
+                                          (xchg dt_pending_config -> NULL), recorded at that very access: a thread other than
+                                          the manager does so only for a timer that is NOT in a heap (t = 0: no armed slot;
+                                          arm = 0: DU_STATE_ARMED clear), and if it is delivering that timer (lm >= 0: the
+                                          thread's last xchg of ds_pending_data in _dispatch_source_latch_and_call was this
+                                          timer's) the latched value carried DISPATCH_TIMER_DISARMED_MARKER (lm = 1).
+                                          lm = -1: the thread never latched this timer (activation).
+       ProgrammedCoversHeap               (Timer.tla evaluates it in every state, i.e. also right after steps of other
+                                          threads) the manager has recorded nothing since it entered a blocking epoll_wait and
+                                          somebody else's arm/disarm leaves a heap whose minimum is not covered by the enabled
+                                          kernel timer: nothing will wake the manager for it
    `bad` names the first law broken ("LAW ...") or the first record the state rebuilt so far
    cannot explain structurally ("DRIFT ...": the probes or this module are out of date). *)
 EXTENDS Integers, FiniteSets, Sequences, TLC, Json, IOUtils, TLCExt, TimerLaws
@@ -58,13 +76,16 @@ VARIABLES l,       \* next record
           kt, ken, \* [clock -> programmed expiry], [clock -> enabled in the epoll set]
           tnow,    \* [clock -> last `now` the manager used]
           lastrun, \* the last run record: [t, tgt, now] (t = 0: none)
+          mgr,     \* thread index of the manager in this execution (0: not known)
+          blocked, \* the manager entered a blocking epoll_wait and has recorded nothing since
           bad
-tvars == <<l, am, kt, ken, tnow, lastrun, bad>>
+tvars == <<l, am, kt, ken, tnow, lastrun, mgr, blocked, bad>>
 
 Unarmed == [armed |-> FALSE, clk |-> 1, tgt |-> INF, iv |-> INF, x |-> 0]
 TInit == /\ l = 2 /\ am = [t \in TT |-> Unarmed]
          /\ kt = [c \in CC |-> INF] /\ ken = [c \in CC |-> FALSE]
          /\ tnow = [c \in CC |-> 0] /\ lastrun = [t |-> 0, tgt |-> 0, now |-> 0] /\ bad = <<"", "">>
+         /\ mgr = 0 /\ blocked = FALSE
          /\ TLCSet(1, 0)
 
 Rec == Tr[l]
@@ -76,15 +97,23 @@ Judge(checks) ==
            ELSE LET F == {i \in 1..Len(checks) : ~checks[i][1]}
                 IN IF F = {} THEN NoBad ELSE <<checks[MinOf(F)][2], checks[MinOf(F)][3]>>
 Val(x) == IF x < 0 THEN INF ELSE x           \* -1 in the trace = INT64_MAX / UINT64_MAX
+ByOwner == mgr = 0 \/ Rec.th = mgr
+OwnerHeap == <<ByOwner, "LAW", "HeapMutatedOnlyByOwner: a timer heap was changed (insert / re-sift / remove) by a thread that is not the manager: nothing reprograms the timerfd for it">>
+OwnerKernel == <<ByOwner, "LAW", "KernelTimerProgrammedOnlyByOwner: a decision of _dispatch_timers_run / _dispatch_timers_program was recorded by a thread that is not the manager">>
+Covered(m) == \A c \in CC : Heap(m, c) # {} => ken[c] /\ kt[c] <= MinTarget(m, c)
+CoverLaw(m) == <<ByOwner \/ ~blocked \/ Covered(m), "LAW",
+                 "ProgrammedCoversHeap: while the manager sits in a blocking epoll_wait another thread changed a heap so that its minimum target is not covered by the enabled kernel timer: the timer will not fire at its settings">>
+\* the manager recorded something: it is not blocked
+Unblock == blocked' = (blocked /\ ~ByOwner)
 
 TArm == /\ Ev("arm")
         /\ am' = [am EXCEPT ![Rec.t] = [armed |-> TRUE, clk |-> Rec.c, tgt |-> Val(Rec.tgt), iv |-> Val(Rec.iv), x |-> Rec.x]]
-        /\ Judge(<< <<Val(Rec.tgt) < INF, "DRIFT", "arm with target >= INT64_MAX">> >>)
-        /\ UNCHANGED <<kt, ken, tnow, lastrun>>
+        /\ Judge(<< <<Val(Rec.tgt) < INF, "DRIFT", "arm with target >= INT64_MAX">>, CoverLaw(am'), OwnerHeap >>)
+        /\ Unblock /\ UNCHANGED <<kt, ken, tnow, lastrun, mgr>>
 TDisarm == /\ Ev("disarm")
            /\ am' = [am EXCEPT ![Rec.t] = Unarmed]
-           /\ Judge(<< <<am[Rec.t].armed /\ am[Rec.t].clk = Rec.c, "DRIFT", "disarm of a timer that is not in that heap">> >>)
-           /\ UNCHANGED <<kt, ken, tnow, lastrun>>
+           /\ Judge(<< <<am[Rec.t].armed /\ am[Rec.t].clk = Rec.c, "DRIFT", "disarm of a timer that is not in that heap">>, OwnerHeap >>)
+           /\ Unblock /\ UNCHANGED <<kt, ken, tnow, lastrun, mgr>>
 \* _dispatch_timers_run looks at dth_min[DTH_TARGET_ID]
 TRun == /\ Ev("run")
         /\ lastrun' = [t |-> Rec.t, tgt |-> Val(Rec.tgt), now |-> Rec.now]
@@ -92,8 +121,8 @@ TRun == /\ Ev("run")
         /\ Judge(<< <<am[Rec.t].armed /\ am[Rec.t].clk = Rec.c /\ am[Rec.t].tgt = Val(Rec.tgt),
                       "DRIFT", "run examines a timer whose recorded arming differs">>,
                     <<Rec.t \in MinTimers(am, Rec.c), "LAW", "RunTakesMinimum: dth_min[TARGET] is not a timer with the smallest target">>,
-                    <<Rec.c = 3 \/ Rec.now >= tnow[Rec.c], "LAW", "TimeMonotone: the manager used a `now` smaller than before">> >>)
-        /\ UNCHANGED <<am, kt, ken>>
+                    <<Rec.c = 3 \/ Rec.now >= tnow[Rec.c], "LAW", "TimeMonotone: the manager used a `now` smaller than before">>, OwnerKernel >>)
+        /\ Unblock /\ UNCHANGED <<am, kt, ken, mgr>>
 \* the fire branch of _dispatch_timers_run: compute_missed; (re)arm or disarm follow as their own records
 TFire == /\ Ev("fire")
          /\ LET r == am[Rec.t]
@@ -103,8 +132,8 @@ TFire == /\ Ev("fire")
                         <<r.tgt <= lastrun.now, "LAW", "FireOnlyWhenDue: fired with target > now">>,
                         <<Rec.kind # "after" \/ Rec.cnt = 1, "LAW", "ComputeMissed: dispatch_after pending data is not 2">>,
                         <<~src \/ Rec.cnt = cm[2], "LAW", "ComputeMissed: pending count is not (now - target) / interval + 1">>,
-                        <<~src \/ Val(Rec.ntgt) = cm[1].tgt, "LAW", "ComputeMissed: new target is not target + missed * interval">> >>)
-         /\ UNCHANGED <<am, kt, ken, tnow, lastrun>>
+                        <<~src \/ Val(Rec.ntgt) = cm[1].tgt, "LAW", "ComputeMissed: new target is not target + missed * interval">>, OwnerKernel >>)
+         /\ Unblock /\ UNCHANGED <<am, kt, ken, tnow, lastrun, mgr>>
 \* _dispatch_timers_program decided: cls 0 = due now (delay 0), 1 = arm the kernel timer, 2 = nothing to wait for
 TProg == /\ Ev("prog")
          /\ LET mt == MinTarget(am, Rec.c)
@@ -113,42 +142,59 @@ TProg == /\ Ev("prog")
                         <<Rec.cls = 2 \/ mt < INF, "LAW", "ProgramsMinimum: heap empty but a delay computed">>,
                         <<Rec.cls # 0 \/ mt <= Rec.now, "LAW", "ProgramsMinimum: delay 0 although the minimum target is in the future">>,
                         <<Rec.cls # 1 \/ mt > Rec.now \/ (fuzzy /\ mt = Rec.now), "LAW", "ProgramsMinimum: minimum target is due but a positive delay was computed">>,
-                        <<Rec.cls = 2 \/ Rec.c = 3 \/ Rec.now >= tnow[Rec.c], "LAW", "TimeMonotone: the manager used a `now` smaller than before">> >>)
+                        <<Rec.cls = 2 \/ Rec.c = 3 \/ Rec.now >= tnow[Rec.c], "LAW", "TimeMonotone: the manager used a `now` smaller than before">>, OwnerKernel >>)
          /\ tnow' = [tnow EXCEPT ![Rec.c] = IF Rec.cls = 2 THEN @ ELSE Rec.now]
-         /\ UNCHANGED <<am, kt, ken, lastrun>>
+         /\ Unblock /\ UNCHANGED <<am, kt, ken, lastrun, mgr>>
 \* _dispatch_timeout_program(tidx, target): timerfd_settime(ABSTIME target) + epoll ADD/MOD, or EPOLL_CTL_DEL
 TKprog == /\ Ev("kprog")
           /\ kt' = [kt EXCEPT ![Rec.c] = IF Val(Rec.tgt) < INF THEN Val(Rec.tgt) ELSE @]
           /\ ken' = [ken EXCEPT ![Rec.c] = Val(Rec.tgt) < INF]
           /\ Judge(<< <<Val(Rec.tgt) >= INF \/ Val(Rec.tgt) = MinTarget(am, Rec.c),
-                        "LAW", "ProgramsMinimum: kernel timer programmed with a time that is not the minimum target">> >>)
-          /\ UNCHANGED <<am, tnow, lastrun>>
+                        "LAW", "ProgramsMinimum: kernel timer programmed with a time that is not the minimum target">>, OwnerKernel >>)
+          /\ Unblock /\ UNCHANGED <<am, tnow, lastrun, mgr>>
 TKevent == /\ Ev("kevent")
            /\ ken' = [ken EXCEPT ![Rec.c] = FALSE]
-           /\ Judge(<< <<ken[Rec.c], "DRIFT", "timerfd event although the kernel timer was not enabled">> >>)
-           /\ UNCHANGED <<am, kt, tnow, lastrun>>
+           /\ Judge(<< <<ken[Rec.c], "DRIFT", "timerfd event although the kernel timer was not enabled">>,
+                       <<ByOwner, "DRIFT", "timerfd event merged by a thread other than the one named as manager">> >>)
+           /\ Unblock /\ UNCHANGED <<am, kt, tnow, lastrun, mgr>>
 \* the manager blocks in epoll_wait: the safety core of "always fires"
 TWait == /\ Ev("wait")
-         /\ Judge(<< <<\A c \in CC : Heap(am, c) # {} => ken[c] /\ kt[c] <= MinTarget(am, c), "LAW",
+         /\ Judge(<< <<ByOwner, "DRIFT", "blocking epoll_wait by a thread other than the one named as manager">>,
+                     <<Covered(am), "LAW",
                        "ArmedImpliesProgrammed: the manager blocks with a non-empty heap whose kernel timer is not programmed at or before the minimum target">> >>)
-         /\ UNCHANGED <<am, kt, ken, tnow, lastrun>>
+         /\ blocked' = TRUE
+         /\ UNCHANGED <<am, kt, ken, tnow, lastrun, mgr>>
+
+\* opens an execution: which thread is the manager
+TThreads == /\ Ev("threads")
+            /\ mgr' = Rec.mgr /\ blocked' = FALSE
+            /\ Judge(<< <<Rec.nw <= 1, "DRIFT", "more than one thread entered epoll_wait / merged a timerfd event: the manager cannot be identified">> >>)
+            /\ UNCHANGED <<am, kt, ken, tnow, lastrun>>
+\* _dispatch_timer_unote_configure takes the pending configuration (Timer!Configure): Timer!MInvoke / Timer!MRun on the
+\* manager, Timer!Activate (never armed yet), or Timer!TPost, whose guard is OffManagerMayConfigure(r) == r.prevmark
+TCfgTake == /\ Ev("cfgtake")
+            /\ Judge(<< <<Rec.lm \in -1..1 /\ Rec.arm \in 0..1 /\ Rec.t \in 0..NT, "DRIFT", "malformed cfgtake record">>,
+                        <<ByOwner \/ (Rec.t = 0 /\ Rec.arm = 0 /\ Rec.lm # 0), "LAW",
+                          "OffManagerMayConfigure: a thread that is not the manager applied a pending configuration to a timer that is in the heap (the data it latched carried no DISARMED marker): it re-sifts a heap it does not own and leaves nothing pending that would take the source to the manager">> >>)
+            /\ UNCHANGED <<am, kt, ken, tnow, lastrun, mgr, blocked>>
 
 \* _dispatch_timer_unote_configure, word level (the memory_order of the store plays no role)
 TConfigure == /\ Ev("configure")
               /\ Judge(<< <<Rec.op \in 1..4 /\ Rec.pd \in 0..3, "DRIFT", "malformed configure record">>,
                           <<IF Rec.op = 1 THEN Rec.nv = 0 ELSE Rec.ov = 0, "LAW",
                             "ConfigureClearsPending: _dispatch_timer_unote_configure left pending data of the replaced configuration in ds_pending_data">> >>)
-              /\ UNCHANGED <<am, kt, ken, tnow, lastrun>>
+              /\ UNCHANGED <<am, kt, ken, tnow, lastrun, mgr, blocked>>
 
 \* several executions (processes) are validated in one run: a reset record separates them
 TReset == /\ Ev("reset")
           /\ am' = [t \in TT |-> Unarmed]
           /\ kt' = [c \in CC |-> INF] /\ ken' = [c \in CC |-> FALSE]
           /\ tnow' = [c \in CC |-> 0] /\ lastrun' = [t |-> 0, tgt |-> 0, now |-> 0]
+          /\ mgr' = 0 /\ blocked' = FALSE
           /\ UNCHANGED bad
 
 TNext == /\ l' = l + 1
-         /\ (TArm \/ TDisarm \/ TRun \/ TFire \/ TProg \/ TKprog \/ TKevent \/ TWait \/ TConfigure \/ TReset)
+         /\ (TArm \/ TDisarm \/ TRun \/ TFire \/ TProg \/ TKprog \/ TKevent \/ TWait \/ TConfigure \/ TReset \/ TThreads \/ TCfgTake)
 TSpec == TInit /\ [][TNext]_tvars
 
 NoLawBroken == bad[1] # "LAW"
